@@ -61,8 +61,10 @@ def run_kets(ctx, case):
     S = nq.state
     kind = case['kind']
     ctx.note(klass=kind, desc=[kind, case.get('n'), case.get('klist'), case.get('k')], nontrivial=True, labels=[kind])
+    FRESH = 'a second call is not affected by editing the array returned by the first'
     if kind == 'W':
         n = case['n']
+        ctx.fresh(lambda: S.W(n), FRESH)
         v = S.W(n)
         want = np.zeros(2 ** n)
         for q in range(n):
@@ -70,6 +72,7 @@ def run_kets(ctx, case):
         ctx.close(v, want, 1e-14, 'W state amplitudes')
     elif kind == 'GHZ':
         n = case['n']
+        ctx.fresh(lambda: S.GHZ(n), FRESH)
         v = S.GHZ(n)
         want = np.zeros(2 ** n)
         want[0] += 1 / math.sqrt(2)
@@ -79,6 +82,7 @@ def run_kets(ctx, case):
         ctx.close(np.linalg.norm(v), 1 if n >= 1 else 1, 1e-12, 'GHZ normalised') if n > 0 else None
     elif kind == 'Bell':
         i = case['n']
+        ctx.fresh(lambda: S.Bell(i), FRESH)
         v = S.Bell(i)
         want = [np.array([1, 0, 0, 1]), np.array([1, 0, 0, -1]), np.array([0, 1, 1, 0]), np.array([0, 1, -1, 0])][i] / math.sqrt(2)
         ctx.close(v, want, 1e-14, 'Bell state amplitudes')
@@ -86,21 +90,25 @@ def run_kets(ctx, case):
         ctx.close(allb @ allb.T, np.eye(4), 1e-14, 'Bell states orthonormal')
     elif kind == 'maxent':
         d = case['n']
+        ctx.fresh(lambda: S.maximally_entangled_state(d), FRESH)
         v = S.maximally_entangled_state(d)
         ctx.close(v, np.eye(d).reshape(-1) / math.sqrt(d), 1e-14, 'maximally entangled state amplitudes')
     elif kind == 'mixed':
         d = case['n']
+        ctx.fresh(lambda: S.maximally_mixed_state(d), FRESH)
         rho = S.maximally_mixed_state(d)
         ctx.require(rho.shape == (d * d, d * d), 'maximally mixed state: documented shape (d^2, d^2)')
         ctx.close(rho, np.eye(d * d) / (d * d), 1e-15, 'maximally mixed state = I/D')
     elif kind == 'coherent':
         d = case['n']
+        ctx.fresh(lambda: [S.maximally_coherent_state(d), S.maximally_coherent_state(d, return_dm=True)], FRESH)
         v = S.maximally_coherent_state(d)
         ctx.close(v, np.ones(d) / math.sqrt(d), 1e-14, 'maximally coherent state amplitudes')
         rho = S.maximally_coherent_state(d, return_dm=True)
         ctx.close(rho, np.outer(v, v.conj()), 1e-14, 'return_dm = projector of the ket')
     elif kind == 'Dicke':
         k = case['klist']
+        ctx.fresh(lambda: S.Dicke(*k), FRESH)
         v = S.Dicke(*k)
         ctx.close(v, ref.dicke_vector(k, len(k)), 1e-14, 'Dicke state amplitudes')
     elif kind == 'Wtype':
@@ -177,6 +185,7 @@ def run_fam(ctx, case):
     nq = _nq()
     S = nq.state
     fam, d, u = case['fam'], case['d'], case['u']
+    FRESH = 'a second call is not affected by editing the array returned by the first'
     r = ref.rng(case['prng'])
     if fam in ('werner', 'isotropic'):
         lo, hi = (-1.0, 1.0) if fam == 'werner' else (-1 / (d * d - 1), 1.0)
@@ -190,6 +199,7 @@ def run_fam(ctx, case):
         alpha = min(max(alpha, lo), hi)
         bucket = 'endpoint' if alpha in (lo, hi) else ('threshold' if isinstance(u, str) else ('sep' if alpha <= thr else 'ent'))
         ctx.note(klass=fam, desc=[fam, d, bucket], nontrivial=(d > 3 or bucket in ('endpoint', 'threshold')), labels=[fam, bucket, f'd={d}'])
+        ctx.fresh(lambda: (S.Werner if fam == 'werner' else S.Isotropic)(d, alpha), FRESH)
         rho = (S.Werner if fam == 'werner' else S.Isotropic)(d, alpha)
         ctx.require(rho.shape == (d * d, d * d), f'{fam}: shape')
         _is_dm(ctx, rho, fam)
@@ -251,6 +261,7 @@ def run_fam(ctx, case):
     bucket = 'endpoint' if u in (0.0, 1.0) else 'interior'
     ctx.note(klass=fam, desc=[fam, bucket, round(u, 1)], nontrivial=True, labels=[fam, bucket])
     if fam == 'horodecki2x4':
+        ctx.fresh(lambda: S.get_bes2x4_Horodecki1997(u), FRESH)
         rho = S.get_bes2x4_Horodecki1997(u)
         ctx.require(rho.shape == (8, 8), 'Horodecki 2x4: shape')
         w = np.eye(8) * u
@@ -263,6 +274,7 @@ def run_fam(ctx, case):
         for sysi in ([0], [1]):
             ctx.require(ref.min_eig(ref.partial_transpose(rho, [2, 4], sysi)) > -1e-12, 'Horodecki 2x4: PPT on the whole range', f'b={u}')
     elif fam == 'horodecki3x3':
+        ctx.fresh(lambda: S.get_bes3x3_Horodecki1997(u), FRESH)
         rho = S.get_bes3x3_Horodecki1997(u)
         ctx.require(rho.shape == (9, 9), 'Horodecki 3x3: shape')
         w = np.eye(9) * u
@@ -275,6 +287,7 @@ def run_fam(ctx, case):
         ctx.require(ref.min_eig(ref.partial_transpose(rho, [3, 3], [1])) > -1e-12, 'Horodecki 3x3: PPT on the whole range', f'a={u}')
     else:
         q = -2.5 + 5 * u
+        ctx.fresh(lambda: S.get_2qutrit_Antoine2022(q), FRESH)
         rho = S.get_2qutrit_Antoine2022(q)
         ctx.require(rho.shape == (9, 9), 'Antoine2022: shape')
         _is_dm(ctx, rho, 'Antoine2022')
@@ -306,6 +319,7 @@ def run_upb(ctx, case):
     elif isinstance(args, list):
         args = tuple(args)
     ctx.note(klass=kind, desc=[kind, case.get('args'), case.get('prng')], nontrivial=(kind != 'tiles'), labels=[kind])
+    ctx.fresh(lambda: list(nq.entangle.load_upb(kind, args, return_bes=True, ignore_warning=True)), 'a second call is not affected by editing the arrays returned by the first')
     upb, bes = nq.entangle.load_upb(kind, args, return_bes=True, ignore_warning=True)
     dims = [x.shape[1] for x in upb]
     N = upb[0].shape[0]
@@ -344,6 +358,7 @@ def run_povm(ctx, case):
     if case['kind'] == 'tetra':
         n = case['n']
         ctx.note(klass='tetra', desc=['tetra', n], nontrivial=True)
+        ctx.fresh(lambda: nq.utils.get_tetrahedron_POVM(n), 'a second call is not affected by editing the array returned by the first')
         E = nq.utils.get_tetrahedron_POVM(n)
         ctx.require(E.shape == (4 ** n, 2 ** n, 2 ** n), 'tetrahedron POVM shape')
         ctx.close(E, E.conj().transpose(0, 2, 1), 1e-12, 'POVM elements Hermitian')
@@ -355,6 +370,8 @@ def run_povm(ctx, case):
         return
     d, alpha, wc = case['d'], case['alpha'], case['wc']
     ctx.note(klass='cheb', desc=['cheb', d, wc, alpha], nontrivial=True)
+    ctx.fresh(lambda: list(nq.unique_determine.get_chebshev_orthonormal(d, alpha, with_computational_basis=wc, return_basis=True)),
+              'a second call is not affected by editing the arrays returned by the first')
     P, basis = nq.unique_determine.get_chebshev_orthonormal(d, alpha, with_computational_basis=wc, return_basis=True)
     nb = 5 if wc else 4
     ctx.require(P.shape == (nb * d, d, d) and len(basis) == nb, 'Chebyshev bases: shape')
